@@ -315,7 +315,7 @@ def _scales(b):
     return dx, dy
 
 
-def _bounds(b, wm, wc, d_sig, d_meas):
+def _bounds(b, wm, wc, d_sig, d_meas, e_rows=None):
     """First-order effect on the posterior of perturbing every angular sigma measurement by d_sig (rad) and every measured angle
     by d_meas (rad).  Everything is evaluated in equilibrated coordinates (state / sqrt(diag pred_p), measurement / sqrt(diag S))
     so that mixed units do not masquerade as ill-conditioning; the returned bounds are for the equilibrated differences."""
@@ -340,8 +340,8 @@ def _bounds(b, wm, wc, d_sig, d_meas):
     if rmin <= 1e-3:
         return None
     angf = b.ang.astype(float)
-    e_y = w1 * d_sig / rmin
-    d_res = float(np.linalg.norm(angf * dy)) * (d_sig + e_y)          # perturbation of one measurement residual column
+    e_y = w1 * d_sig / rmin * np.ones(m) if e_rows is None else np.asarray(e_rows, dtype=float)   # error of the predicted mean, per row
+    d_res = float(np.linalg.norm(angf * dy * (d_sig + e_y)))          # perturbation of one measurement residual column
     awc = np.abs(wc)
     ny = np.linalg.norm(yres, axis=0)
     nxr = np.linalg.norm(xres, axis=0)
@@ -408,27 +408,73 @@ def _eval_sigma(obs, sp, utc=None):
     return np.array(rows, dtype=float).T
 
 
+def _row_mean_error(theta, wm, low):
+    """Rounding bound of the repository's weighted circular mean of one row (angularMean with this row's interval) plus the
+    reference's own (atan2 of the plain sums).  Angle aware: near 0 the sine sum is tiny and the mean is accurate far below
+    eps * sum|w|; for the (-pi, pi) interval the argument (theta - low) itself is rounded."""
+    s_ = len(theta)
+    wn = wm / np.linalg.norm(wm)
+    out = 0.0
+    for arg, d_arg in ((theta - low, (2.0 * EPS * (np.abs(theta) + abs(low)) if low != 0.0 else np.zeros(s_))), (theta, np.zeros(s_))):
+        sn, cs = np.sin(arg), np.cos(arg)
+        aw = np.abs(wn)
+        ds = float(np.dot(aw, np.abs(cs) * d_arg + (s_ + 2) * EPS * np.abs(sn)))
+        dc = float(np.dot(aw, np.abs(sn) * d_arg + (s_ + 2) * EPS * np.abs(cs)))
+        sm, cm = float(np.dot(wn, sn)), float(np.dot(wn, cs))
+        rr = math.hypot(sm, cm)
+        if rr <= 0:
+            return math.inf
+        out += (abs(cm) * ds + abs(sm) * dc) / (rr * rr) + 4 * EPS
+    return out + 8 * ULP_2PI
+
+
 def _reference_check(ctx, w, what, b, obs, wm, wc, r, y, utc=None):
+    from resonaate.physics.measurements import IsAngle
+
     y_sig = _eval_sigma(obs, b.sp, utc)
     ref = kf.sigma_update(b.pred_x, b.pred_p, b.xres, y_sig, wm, wc, b.ang, r, y)
-    n = b.x.shape[0]
-    bd = _bounds(b, wm, wc, 4 * EPS * (TWOPI + (_mx(y_sig[b.ang]) if np.any(b.ang) else 0.0)), 4 * EPS * (TWOPI + (_mx(y[b.ang]) if np.any(b.ang) else 0.0)))
-    if bd is None or not bd["decided"] or ref["resultant"] < 1e-3:
+    flags = [int(a) for ob in obs for a in ob.measurement.angular_values]
+    m = len(flags)
+    if not (np.all(np.diag(b.s) > 0) and np.all(np.isfinite(b.s))) or ref["resultant"] < 1e-3:
+        ctx.count("undecided_reference")
+        return
+    key = "update-ne-circular-reference"
+    e_rows = np.zeros(m)
+    sig_row = np.sqrt(np.diag(b.s))
+    # ---- row-wise: predicted mean, innovation, sigma residuals (these see a seam error directly) -------------------
+    for i in range(m):
+        if not b.ang[i]:
+            continue
+        low = 0.0 if flags[i] == int(IsAngle.ANGLE_0_2PI) else -PI
+        e_rows[i] = _row_mean_error(y_sig[i], wm, low)
+        tol_i = C_TOL * e_rows[i]
+        if tol_i > DECIDE_REL * sig_row[i]:
+            ctx.count("undecided_reference_rows")
+            continue
+        dm = kf.circ_dist(float(b.ybar[i]), float(ref["ybar"][i]))
+        _track(ctx, "reference_row_mean", dm, e_rows[i])
+        ctx.check(dm <= tol_i, key, f"{what}: predicted mean of angular row {i} = {float(b.ybar[i])!r}, weighted circular mean = {float(ref['ybar'][i])!r} "
+                  f"(difference {dm:.3e}, bound {tol_i:.3e})", w, mon="circular_reference")
+        t_res = tol_i + 16 * ULP_2PI + 4 * EPS * float(np.max(np.abs(y_sig[i])) + abs(float(y[i])))
+        dr = max(kf.circ_dist(float(b.yres[i, j]), float(ref["y_res"][i, j])) for j in range(y_sig.shape[1]))
+        ok_rng = bool(np.all(b.yres[i] > -PI) and np.all(b.yres[i] <= PI))
+        ctx.check(dr <= t_res and ok_rng, key, f"{what}: sigma-point residuals of angular row {i} differ from the wrapped differences by {dr:.3e} "
+                  f"(bound {t_res:.3e}; all in (-pi, pi]: {ok_rng})", w, mon="circular_reference")
+        dn = abs(float(b.nu[i]) - float(ref["nu"][i]))
+        ctx.check(dn <= t_res, key, f"{what}: innovation of angular row {i} = {float(b.nu[i])!r}, seam-free value {float(ref['nu'][i])!r}", w, mon="circular_reference")
+        ctx.count("reference_rows_decided")
+    # ---- whole posterior ------------------------------------------------------------------------------------------
+    bd = _bounds(b, wm, wc, 4 * EPS * (TWOPI + (_mx(y_sig[b.ang]) if np.any(b.ang) else 0.0)), 4 * EPS * (TWOPI + (_mx(y[b.ang]) if np.any(b.ang) else 0.0)), e_rows=e_rows)
+    if bd is None or not bd["decided"]:
         ctx.count("undecided_reference")
         return
     dx, dy = bd["dx"], bd["dy"]
     ex, ep = _mx(dx * (b.x - ref["x"])), _mx((b.p - ref["p"]) * np.outer(dx, dx))
     _track(ctx, "reference_x", ex, bd["x"])
     _track(ctx, "reference_p", ep, bd["p"])
-    key = "update-ne-circular-reference"
     ctx.check(ex <= C_TOL * bd["x"], key, f"{what}: est_x differs from the seam-free reference update by {ex:.3e} prior sigmas (bound {C_TOL * bd['x']:.3e})", w, mon="circular_reference")
     ctx.check(ep <= C_TOL * bd["p"], key, f"{what}: est_p differs from the seam-free reference update by {ep:.3e} of the prior variance (bound {C_TOL * bd['p']:.3e})", w, mon="circular_reference")
-    dn = np.array([(kf.circ_dist(float(b.nu[i]), float(ref["nu"][i])) if b.ang[i] else abs(float(b.nu[i] - ref["nu"][i]))) for i in range(len(b.nu))])
-    en = _mx(dn * dy)
-    ctx.check(en <= C_TOL * bd["nu"], key, f"{what}: innovation differs from the seam-free reference by {en:.3e} innovation sigmas (bound {C_TOL * bd['nu']:.3e})", w, mon="circular_reference")
-    dm = np.array([(kf.circ_dist(float(b.ybar[i]), float(ref["ybar"][i])) if b.ang[i] else abs(float(b.ybar[i] - ref["ybar"][i]))) for i in range(len(b.nu))])
-    em = _mx(dm * dy)
-    ctx.check(em <= C_TOL * bd["nu"], key, f"{what}: predicted measurement mean differs from the weighted circular mean by {em:.3e} innovation sigmas", w, mon="circular_reference")
+    ctx.count("reference_posteriors_decided")
 
 
 def _blk(mats):
@@ -602,6 +648,12 @@ def run_stub(ctx, spec, only=None):
                "flag-swap": "posterior-changes-with-angle-flag", "arbitrary": "posterior-changes-with-wrap-cut"}[place]
         seam = {"pm-pi-seam": PI, "zero-seam": 0.0}.get(place)
         on_seam = seam is not None and _straddles(v, seam)
+        if on_seam:
+            # the seam-free reference on the variant itself (angle-aware row bounds stay decided for small alpha)
+            r2 = _blk([np.array(o["R"], dtype=float) for o in o2])
+            y2 = np.concatenate([np.array(o["y"], dtype=float) for o in o2])
+            _reference_check(ctx, wv, f"update with the target on the {'+-pi' if seam else '0/2pi'} seam (delta={d:+.1e})", v, _mk_obs(o2), wm, wc, r2, y2)
+            ctx.count("seam_straddling_updates_checked_against_reference")
         if _compare(ctx, "wrap", "wrap_point_invariance", key, f"moving the wrap point ({place}, target at {d:+.1e} rad from the seam/centre"
                     f"{', sigma points straddle the seam' if on_seam else ''})", wv, base, v, _bounds(base, wm, wc, 2 * EPS * a_mag, 2 * EPS * a_mag)):
             stats["decided"] += 1
